@@ -336,15 +336,63 @@ theorem mux_reach_inv (maxConn maxReq : Nat) (ops : List PoolMux.Op) : PoolMux.I
   PoolMux.inv_run _ (PoolMux.inv_init maxConn maxReq) ops
 
 /-- **books** (multiplex): the shared requests breaker counts exactly the requests in flight plus the slots held
-elsewhere (nothing when its limit is 0); it never goes negative. -/
+elsewhere (nothing when its limit is 0); it never goes negative; both upstream request_active gauges (host, cluster)
+count exactly the requests in flight.  "In flight" = streams with a receiver that have not ended: a one-way request
+(`Op.newStreamOneway`) is never among them. -/
 theorem mux_books (maxConn maxReq : Nat) (ops : List PoolMux.Op) :
     let s := mreach maxConn maxReq ops
-    s.reqCur = (if s.maxReq = 0 then 0 else (s.ext : Int) + (s.liveCount : Int)) ∧ 0 ≤ s.reqCur := by
+    s.reqCur = (if s.maxReq = 0 then 0 else (s.ext : Int) + (s.liveCount : Int)) ∧ 0 ≤ s.reqCur ∧
+    s.actHost = (s.liveCount : Int) ∧ s.actCluster = (s.liveCount : Int) := by
   intro s
   have hinv : PoolMux.Inv s := mux_reach_inv maxConn maxReq ops
   have h := hinv.core.req
-  refine ⟨h, ?_⟩
+  refine ⟨h, ?_, hinv.core.act.1, hinv.core.act.2⟩
   rw [h]; split <;> omega
+
+/-- **a one-way request holds nothing**: in every reachable state, for every slot, `NewStream(ctx, nil)` — admitted or
+refused — leaves the requests breaker, both request_active gauges, the slots, the connections and the streams exactly as
+they were (the whole state): a one-way client stream is never destroyed or reset, so nothing could give a slot or a
+gauge unit back.  Consequently any number of one-way requests changes neither the books nor the answer of the breaker
+to the next request.  (Proved from the regenerated movements of the `receiver == nil` path of `NewStream`,
+`Gen.PoolMuxMoves.muxLeaseMoves true`: with the one-way branch merged into the ordinary one this stops checking.) -/
+theorem oneway_holds_nothing (maxConn maxReq : Nat) (ops : List PoolMux.Op) (k : Nat) :
+    let s := mreach maxConn maxReq ops
+    (PoolMux.step s (.newStreamOneway k)).1 = s ∧
+    (∀ n, PoolMux.run s (List.replicate n (.newStreamOneway k)) = s) ∧
+    (∀ c, (PoolMux.step s (.newStreamOneway k)).2 = .ok c →
+      c < s.nClients ∧ (s.client c).netOpen = true ∧ (s.client c).goaway = 0 ∧
+      Gen.Pool.canCreate s.maxReq s.reqCur = true) := by
+  intro s
+  have h : PoolMux.Inv s := mux_reach_inv maxConn maxReq ops
+  refine ⟨PoolMux.newStreamOneway_state s k, ?_, ?_⟩
+  · intro n
+    induction n with
+    | zero => rfl
+    | succ n ih =>
+      show PoolMux.run (PoolMux.step s (.newStreamOneway k)).1 _ = s
+      rw [show (PoolMux.step s (.newStreamOneway k)).1 = s from PoolMux.newStreamOneway_state s k]; exact ih
+  · intro c
+    show (PoolMux.newStreamOneway s k).2 = .ok c → _
+    unfold PoolMux.newStreamOneway
+    simp only
+    split
+    · intro hc; cases hc
+    split
+    · intro hc; cases hc
+    · intro hc; cases hc
+    · rename_i c0 hs
+      split
+      · intro hc; cases hc
+      · rename_i hu
+        split
+        · intro hc; cases hc
+        · rename_i hcan
+          intro hc
+          cases hc
+          have ⟨h1, _, h3⟩ := h.core.slotOk _ c hs
+          have hst : (s.client c).state = Gen.PoolMux.muxConnected := by
+            simp only [Gen.PoolMux.muxUnusable, decide_eq_true_eq, ne_eq, Decidable.not_not] at hu; exact hu
+          exact ⟨h1, h3 hst, (h.core.st c h1).mp hst, by simpa using hcan⟩
 
 /-- **no_leak** (multiplex): at every quiescent point every OPEN connection the pool ever made is either the
 Connected client of its slot (the pool will lease requests on it) or is draining after a go-away with at least one
@@ -436,6 +484,11 @@ example : ((PoolMux.trace (PoolMux.init 1 2) [.checkAndInit (some 0) .ok, .newSt
       .checkAndInit (some 0) .ok, .connClose 0 true, .newStream 0]).map (·.1)) =
     [.ready false, .ok 0, .ok 0, .none, .ready false, .none, .ok 1] := by decide
 example : (mreach 1 2 [.checkAndInit (some 0) .ok, .newStream 0, .newStream 0, .goAway 0, .connClose 0 true]).reqCur = 0 := by decide
+-- one-way requests: granted on the Connected client, and after any number of them the breaker (max_requests = 1) still
+-- admits an ordinary request; the gauges count that request only
+example : ((PoolMux.trace (PoolMux.init 1 1) [.checkAndInit (some 0) .ok, .newStreamOneway 0, .newStreamOneway 0, .newStreamOneway 0,
+      .newStream 0, .newStreamOneway 0]).map (fun x => (x.1, x.2.reqCur, x.2.actHost, x.2.actCluster))) =
+    [(.ready false, 0, 0, 0), (.ok 0, 0, 0, 0), (.ok 0, 0, 0, 0), (.ok 0, 0, 0, 0), (.ok 0, 1, 1, 1), (.overflow, 1, 1, 1)] := by decide
 -- a dial that is refused or times out leaves the slot empty; the next CheckAndInit connects
 example : ((PoolMux.trace (PoolMux.init 2 0) [.checkAndInit (some 1) .timeout, .newStream 1, .checkAndInit (some 1) .refused,
       .checkAndInit (some 1) .ok, .checkAndInit (some 1) .ok, .newStream 1]).map (·.1)) =
